@@ -314,6 +314,53 @@ theorem trailing1d_pixels (r : R1) (a b : Int) :
   · rw [region1dNew_eq_none (by dsimp only; omega)]
     exact ⟨by simp; omega, by simp⟩
 
+/-- (c9) content level: for a pixel range inside the parent (`0 ≤ a < b ≤ rows`), the parallel front
+    region slices from any array exactly rows `a … b−1` (all columns) of the parent region's content. -/
+theorem parallel_front_content (arr : List (List α)) (r : R2) (hr : Spec.R2.Valid r) (a b : Int)
+    (ha : 0 ≤ a) (hab : a < b) (hb : b ≤ r.totalRows) :
+    ∃ r', Impl.parallelFront r (a, b) = some r'
+      ∧ Impl.slice2d r' arr
+          = Impl.slice2d ⟨a, b, 0, r.totalColumns⟩ (Impl.slice2d r arr) := by
+  unfold Spec.R2.Valid at hr
+  unfold R2.totalRows at hb
+  unfold Impl.parallelFront R2.totalColumns
+  rw [region2dNew_eq_some (by dsimp only; omega)]
+  refine ⟨_, rfl, ?_⟩
+  simp only [slice2d_eq_sliceN, sliceN_sliceN]
+  congr 1 <;> omega
+
+/-- (c10) the serial front region slices exactly columns `a … b−1` (all rows) of the parent region's
+    content, for `0 ≤ a < b ≤ columns`. -/
+theorem serial_front_content (arr : List (List α)) (r : R2) (hr : Spec.R2.Valid r) (a b : Int)
+    (ha : 0 ≤ a) (hab : a < b) (hb : b ≤ r.totalColumns) :
+    ∃ r', Impl.serialFront r (a, b) = some r'
+      ∧ Impl.slice2d r' arr
+          = Impl.slice2d ⟨0, r.totalRows, a, b⟩ (Impl.slice2d r arr) := by
+  unfold Spec.R2.Valid at hr
+  unfold R2.totalColumns at hb
+  unfold Impl.serialFront Impl.serialXFrontRange R2.totalRows
+  rw [region2dNew_eq_some (by dsimp only; omega)]
+  refine ⟨_, rfl, ?_⟩
+  simp only [slice2d_eq_sliceN, sliceN_sliceN]
+  congr 1 <;> omega
+
+/-- (c11) 1-D: the front region slices exactly pixels `a … b−1` of the parent region's content. -/
+theorem front1d_content (arr : List α) (r : R1) (hr : Spec.R1.Valid r) (a b : Int)
+    (ha : 0 ≤ a) (hab : a < b) (hb : b ≤ r.totalPixels) :
+    ∃ r', Impl.front1d r (a, b) = some r'
+      ∧ Impl.slice1d r' arr = Impl.slice1d ⟨a, b⟩ (Impl.slice1d r arr) := by
+  unfold Spec.R1.Valid at hr
+  unfold R1.totalPixels at hb
+  unfold Impl.front1d
+  rw [region1dNew_eq_some (by dsimp only; omega)]
+  refine ⟨_, rfl, ?_⟩
+  unfold Impl.slice1d
+  rw [window_window]
+  dsimp only
+  have e1 : (r.x0 + a).toNat = r.x0.toNat + a.toNat := by omega
+  have e2 : (r.x0 + b).toNat = min r.x1.toNat (r.x0.toNat + b.toNat) := by omega
+  rw [e1, e2]
+
 /-! ### non-vacuity: concrete instances meeting every hypothesis above -/
 example :
     let a : List (List Nat) := [[1, 2, 3, 4], [5, 6, 7, 8], [9, 10, 11, 12]]
